@@ -9,8 +9,11 @@ from readers import run_cli, write_text
 SEQS = {1: "ACG", 2: "C", 3: "GNt", 4: "TTGCA"}      # a one-base node (SNP allele), an ambiguous and a soft-masked base
 
 
+NAMES = {1: "n1", 2: "HG002#1#JAHKSE01.1", 3: "utg3-l:7", 4: "s10.1_b"}      # GFA segment names are any printable non-blank text
+
+
 def name(n):
-    return f"n{n}"
+    return NAMES.get(n, f"n{n}")
 
 
 def canon_links(state):
